@@ -302,6 +302,28 @@ func C08(c *core.Ctx) {
 			run("min-teetcbsvn", fmt.Sprintf("component %d min%+d", i, d), q2, &validate.Options{TdQuoteBodyOptions: validate.TdQuoteBodyOptions{MinimumTeeTcbSvn: m}})
 		}
 	}
+	// mixed: some components above, some below, some equal (component-wise, not lexicographic)
+	for i := 0; i < c.Scale(80, 2000); i++ {
+		q2 := validQuoteMsg(r)
+		m := make([]byte, 16)
+		for j := range m {
+			v := int(q2.TdQuoteBody.TeeTcbSvn[j])
+			switch r.Intn(4) {
+			case 0:
+				v++
+			case 1:
+				v--
+			}
+			if v < 0 {
+				v = 0
+			}
+			if v > 255 {
+				v = 255
+			}
+			m[j] = byte(v)
+		}
+		run("min-teetcbsvn-mixed", fmt.Sprintf("minimum = quote %v", m), q2, &validate.Options{TdQuoteBodyOptions: validate.TdQuoteBodyOptions{MinimumTeeTcbSvn: m}})
+	}
 	for _, n := range []int{0, 1, 8, 15, 17, 32} {
 		run("min-teetcbsvn-size", fmt.Sprintf("minimum of %d zero bytes", n), q, &validate.Options{TdQuoteBodyOptions: validate.TdQuoteBodyOptions{MinimumTeeTcbSvn: make([]byte, n)}})
 	}
